@@ -250,6 +250,61 @@ func rulesC12(c *Ctx) {
 			c.Check(ok, rule, rc+":imported=verified", c.P.InstrPos(call), "the imported pointer is the verifier's result", "doRestoreChunk imports a pointer that is not the verifier's result")
 		}
 	}
+	// the chunk batch is reset on every exit once it exists (on pathbadger Reset releases the
+	// multipart lock: a leaked batch blocks every later chunk, including the retry)
+	if fn := c.needFn(rule, rc); fn != nil {
+		nb := CallsTo(fn, "ndb.NewBatch", "storage/mkvs/db/api.(NodeDB).NewBatch", "")
+		deferred := false
+		for _, call := range callsIn(fn) {
+			if d, ok := call.(*ssa.Defer); ok && calleeName(d) == "storage/mkvs/db/api.(Batch).Reset" {
+				// the defer must be registered right after creation: every path from NewBatch✓ to a return passes it
+				cut := NewCut().AddInstr(d)
+				if Reach(fn, nil, mustSuccessEdges(nb), func(i ssa.Instruction) bool { _, r := i.(*ssa.Return); return r }, cut) == nil {
+					deferred = true
+				}
+			}
+		}
+		ok := deferred
+		if !ok && !nb.Empty() {
+			resets := CallsTo(fn, "batch.Reset", "storage/mkvs/db/api.(Batch).Reset", "")
+			cut := NewCut()
+			for _, r := range resets.Ins {
+				cut.AddInstr(r)
+			}
+			ok = !resets.Empty() && Reach(fn, nil, mustSuccessEdges(nb), func(i ssa.Instruction) bool { _, r := i.(*ssa.Return); return r }, cut) == nil
+		}
+		c.Check(ok, rule, rc+":batch-reset-on-every-exit", c.P.Pos(fn.Pos()), "every exit after NewBatch succeeded resets the batch", "restoreChunk can return (e.g. on a node-import error) without resetting its batch: the multipart lock stays held and every later chunk restore blocks")
+	}
+	// chunk files are created truncated (a shorter re-created chunk must not keep a stale tail)
+	{
+		n, bad := 0, 0
+		for _, fn := range c.P.FuncsInPkg("storage/mkvs/checkpoint") {
+			for _, call := range callsIn(fn) {
+				switch calleeName(call) {
+				case "os.Create":
+					n++
+				case "os.OpenFile":
+					args := allArgs(call)
+					fl, isC := constInt(args[1])
+					if !isC {
+						continue
+					}
+					const oWRONLY, oRDWR, oCREATE, oEXCL, oTRUNC = 0x1, 0x2, 0x40, 0x80, 0x200
+					if fl&oCREATE != 0 && fl&(oWRONLY|oRDWR) != 0 {
+						n++
+						if fl&(oTRUNC|oEXCL) == 0 {
+							bad++
+							c.Fail("C12.determinism", fname(fn)+":create-truncates", c.P.InstrPos(call), "a checkpoint file is created for writing without O_TRUNC/O_EXCL: leftovers of an interrupted creation survive in the chunk and its digest no longer matches the metadata")
+						}
+					}
+				}
+			}
+		}
+		if bad == 0 {
+			c.OK("C12.determinism", "checkpoint:create-truncates", "", itoa(n)+" file creations in storage/mkvs/checkpoint all truncate (os.Create / O_TRUNC / O_EXCL)")
+		}
+		c.Floor("C12.determinism", n, 1, "checkpoint file creations")
+	}
 	ix := c.P.BuildIndex()
 	proofRootTaint(c, ix, "C12.taint")
 	const rsC = "storage/mkvs/checkpoint.(*restorer).RestoreChunk"
@@ -396,5 +451,40 @@ func rulesC13(c *Ctx) {
 		edges = append(edges, HeldEdges(fn, `^\*param:rc\.localDB\.HasRoot\(param:expectedNewRoot\)$`)...)
 		c.SuccessRequiresEdges("C13.apply", fn, "HasRoot(expected)∨CommitKnown✓", edges, "Apply reports success only if the expected root is (now) in the database")
 		c.Check(len(returnsOfGlobal(fn, "storage/api.ErrExpectedRootMismatch")) > 0, "C13.apply", apply+":mismatch-reported", c.P.Pos(fn.Pos()), "root mismatch is reported as ErrExpectedRootMismatch", "Apply no longer reports ErrExpectedRootMismatch")
+	}
+	// write-log bookkeeping: whether a key existed at the START of the batch is recorded once, when
+	// the pending entry is created, and never overwritten by later operations of the same batch
+	{
+		n, bad := 0, 0
+		for _, sst := range ix.FieldStores["storage/mkvs.pendingEntry.existed"] {
+			n++
+			st := sst.In.(*ssa.Store)
+			fa := st.Addr.(*ssa.FieldAddr)
+			fresh := true
+			for _, r := range Roots(fa.X) {
+				if r.Kind != "alloc" && r.Kind != "const" {
+					fresh = false
+				}
+			}
+			if !fresh {
+				bad++
+				c.Fail("C13.writelog", "pendingEntry.existed<-"+fname(sst.Fn), c.P.InstrPos(sst.In), "pendingEntry.existed is overwritten on an already pending entry: remove→insert→remove of a pre-existing key in one batch would drop the delete from the write log (the served log no longer reproduces the new root)")
+			}
+		}
+		if bad == 0 {
+			c.OK("C13.writelog", "pendingEntry.existed:set-once", "", itoa(n)+" stores, all into freshly created entries")
+		}
+		c.Floor("C13.writelog", n, 2, "stores to pendingEntry.existed")
+	}
+	// the write-log filter in commit drops exactly entries that did not exist and end removed
+	if fn := c.needFn("C13.writelog", "storage/mkvs.(*tree).commitWithHooks"); fn != nil {
+		es := HeldEdges(fn, `\.value == nil$`)
+		es2 := HeldEdges(fn, `^!\*.*\.existed$`)
+		c.Check(len(es) > 0 && len(es2) > 0, "C13.writelog", "commitWithHooks:drop-only(never-existed ∧ removed)", c.P.Pos(fn.Pos()), "log filter tests both value==nil and !existed", "the write-log filter no longer tests both 'removed' and 'did not exist before'")
+	}
+	// pathbadger serves write logs only for finalized (seqNo 0) roots: a pending competitor's node
+	// keys collide with the first candidate's
+	if fn := c.needFn("C13.writelog", "storage/mkvs/db/pathbadger.(*badgerNodeDB).GetWriteLog"); fn != nil {
+		c.SuccessRequiresCond("C13.writelog", fn, "endRoot seqNo==0", `getPendingRootSeqNo\(.*\)#0 == 0$`, "the path-keyed write log can only be resolved for the root whose nodes are in the finalized set")
 	}
 }
